@@ -138,6 +138,9 @@ static void run(void) {
   __CPROVER_assume(1 <= IN.q0 && IN.q0 < IN.p && IN.p < IN.q1 && IN.q1 < IN.q2 && IN.q2 <= (1 << 20));
   __CPROVER_assume(0 <= IN.n && IN.n <= (1 << 30));
   mk(TK_IDENT, "__LINE__", IN.q0, true);
+#ifdef INCOND          // the directive sits inside a conditional group:  #ifdef __LINE__ ... #endif
+  mk(TK_PUNCT, "#", IN.q0, true); mk(TK_IDENT, "ifdef", IN.q0, false); mk(TK_IDENT, "__LINE__", IN.q0, false);
+#endif
   mk(TK_PUNCT, "#", IN.p, true);
   if (FORM == 0) mk(TK_IDENT, "line", IN.p, false);
   Token *num = mk(TK_PP_NUM, "5", IN.p, false);
@@ -145,6 +148,9 @@ static void run(void) {
   mk(TK_IDENT, "__LINE__", IN.q1, true);
   Token *x = mk(TK_IDENT, "X", IN.q1, false);
   mk(TK_IDENT, "__LINE__", IN.q2, true);
+#ifdef INCOND
+  mk(TK_PUNCT, "#", IN.q2 + 1, true); mk(TK_IDENT, "endif", IN.q2 + 1, false);
+#endif
   Token *eof = mk(TK_EOF, "", IN.q2 + 1, true);
   eof->len = 0;
 
